@@ -182,7 +182,9 @@ def recovery_cases(rng, n, ids=()):
             continue
         regs = [('Edmd', lambda: pykoop.Edmd(alpha=0)), ('EdmdMeta', lambda: pykoop.EdmdMeta()),
                 ('Dmdc/projected', lambda: pykoop.Dmdc(mode_type='projected')),
-                ('Dmdc/exact', lambda: pykoop.Dmdc(mode_type='exact'))]
+                ('Dmdc/exact', lambda: pykoop.Dmdc(mode_type='exact')),
+                # untruncated, written with explicit full ranks for the two SVDs (different for the two)
+                ('Dmdc/projected', lambda: pykoop.Dmdc(tsvd_unshifted=pykoop.Tsvd('rank', ns + nu), tsvd_shifted=pykoop.Tsvd('rank', ns)))]
         if nu == 0:
             regs += [('Dmd/projected', lambda: pykoop.Dmd(mode_type='projected')),
                      ('Dmd/exact', lambda: pykoop.Dmd(mode_type='exact'))]
